@@ -48,16 +48,20 @@ pub fn bounds(tier: Tier) -> Vec<ConvBound> {
             mk(Fam::Nest, 0, &two_rev, 3, 0, false, true),
         ],
         Tier::Thorough => vec![
-            mk(Fam::Txt, 1, &two, 4, 1, true, true),
             mk(Fam::Txt, 0, &two, 4, 2, true, true),
             mk(Fam::Txt, 0, &two, 5, 0, false, false),
-            mk(Fam::Txt, 0, &three, 4, 0, false, true),
+            mk(Fam::Txt, 0, &three, 3, 1, true, true),
+            mk(Fam::Txt, 1, &two, 3, 2, true, true),
             mk(Fam::Map, 1, &two, 4, 1, true, true),
             mk(Fam::Map, 0, &three, 4, 0, false, true),
-            mk(Fam::Arr, 1, &two, 4, 1, true, true),
-            mk(Fam::Rtx, 0, &two, 4, 1, true, true),
-            mk(Fam::Xml, 0, &two, 4, 1, true, true),
-            mk(Fam::Nest, 0, &two_rev, 4, 1, true, true),
+            mk(Fam::Arr, 0, &two, 4, 1, true, true),
+            mk(Fam::Arr, 1, &two, 3, 2, true, true),
+            mk(Fam::Rtx, 0, &two, 4, 0, false, true),
+            mk(Fam::Rtx, 0, &two, 3, 2, true, true),
+            mk(Fam::Xml, 0, &two, 4, 0, false, true),
+            mk(Fam::Xml, 0, &two, 3, 2, true, true),
+            mk(Fam::Nest, 0, &two_rev, 4, 0, false, true),
+            mk(Fam::Nest, 0, &two_rev, 3, 2, true, true),
             mk(Fam::Uni, 0, &two, 3, 1, true, true),
         ],
     }
